@@ -538,3 +538,8 @@ package main
 //@   requires [C13] s != nil && msg != nil && msg.Del != nil
 //@   modifies *
 //@   ensures [C13] answered: outTotal > old(outTotal)
+
+// C19: the search-query parser against the documented query language. Bounded stand-in (not a proof): the real
+// parseSearchQuery and the reference verifRefParseSearch (zz_verif_spec.go) are executed on every string of length
+// <= 7 over the alphabet {a, b, space, comma, double quote}: 97656 queries.
+//@ bounded [C19] search_query_language: n int in 0..97655 :: verifSearchAgrees(verifNthString(n, "ab ,\""))
